@@ -1789,7 +1789,9 @@ func ExecDistinct(query *Query, current []any) ([]any, error) {
 	slice := make([]any, 0)
 	for _, item := range current {
 		sha256 := sha256.New()
-		_, err := sha256.Write([]byte(fmt.Sprintf("%v", item)))
+		// %#v keeps strings quoted, so "1" and 1 - or {"a": "x b:y"} and
+		// {"a": "x", "b": "y"} - do not share a fingerprint as they do under %v
+		_, err := sha256.Write([]byte(fmt.Sprintf("%#v", item)))
 		if err != nil {
 			return nil, err
 		}
